@@ -639,6 +639,9 @@ def values_equal(got, want):
     want = np.asarray(want)
     if got.shape != want.shape:
         return False, f"shape {got.shape} != {want.shape}"
+    if got.dtype.kind in "USOV" or want.dtype.kind in "USOV":
+        ok = bool(got.dtype.kind == want.dtype.kind and np.array_equal(got, want))       # e.g. a key name returned instead of data
+        return ok, "" if ok else f"values differ (dtype {got.dtype} vs {want.dtype})"
     if want.dtype.kind in "iub" and got.dtype.kind in "iub":
         ok = np.array_equal(got, want)
     else:
@@ -796,6 +799,8 @@ def call_tag(prog, sources):
                 return "pad-wider-than-axis"
         if name == "topk" and abs(params[0]) > shape[params[1]]:
             return "topk-k-beyond-axis"
+        if name.startswith("reshape_blockwise") and all(s == 1 for s in shape):
+            return "reshape_blockwise-all-ones"
     except Exception:  # noqa: BLE001
         pass
     return name
